@@ -1223,7 +1223,8 @@ func indirectToStringerOrError(a interface{}) interface{} {
 		return nil
 	}
 	v := reflect.ValueOf(a)
-	for !v.Type().Implements(fmtStringerType) && !v.Type().Implements(errorType) && v.Kind() == reflect.Ptr && !v.IsNil() {
+	// (bounded: a value of a type such as `type P *P` can point to itself)
+	for n := 0; n < 100 && !v.Type().Implements(fmtStringerType) && !v.Type().Implements(errorType) && v.Kind() == reflect.Ptr && !v.IsNil(); n++ {
 		v = v.Elem()
 	}
 	return v.Interface()
